@@ -135,6 +135,31 @@ pub(super) fn generate_parser_actions(generator: &ParserGenerator) -> Result<()>
         };
     }
 
+    // Snake-case symbol names are used as identifiers (action functions,
+    // parameters, fields) in the generated actions.
+    for name in generator
+        .grammar
+        .terminals
+        .iter()
+        .filter(|t| t.has_content && t.reachable.get())
+        .map(|t| &t.name)
+        .chain(
+            generator
+                .grammar
+                .nonterminals()
+                .iter()
+                .filter(|nt| nt.reachable.get())
+                .map(|nt| &nt.name),
+        )
+    {
+        let ident = to_snake_case(name);
+        if syn::parse_str::<syn::Ident>(&ident).is_err() {
+            return Err(Error::Error(format!(
+                "Can't use '{name}' with the default builder as '{ident}' is not a valid Rust identifier."
+            )));
+        }
+    }
+
     let actions_generator: Box<dyn ActionsGenerator> = production::ProductionActionsGenerator::new(
         generator.grammar,
         generator.types.as_ref().unwrap(),
